@@ -70,6 +70,9 @@ type stepper struct {
 	calls     []*call // prepared Call steps, in order
 	pipeline  bool    // all calls are written up front (the client runs ahead of the server)
 	pipeErr   chan error
+	// startServe is closed when the (socket) server may start reading: a pipelining client
+	// first puts all its calls into the socket buffer, so the server finds them back to back
+	startServe chan struct{}
 }
 
 var leakRe = regexp.MustCompile(`outstanding=(-?\d+)`)
@@ -111,6 +114,7 @@ func (s *stepper) Begin(b replay.Behaviour, rng *rand.Rand) error {
 	}
 	s.done = make(chan struct{})
 	s.streams = make(chan []batchRec, 64)
+	s.startServe = make(chan struct{})
 	switch s.transport {
 	case "pipe":
 		sr, cw := io.Pipe()
@@ -157,6 +161,7 @@ func (s *stepper) Begin(b replay.Behaviour, rng *rand.Rand) error {
 				close(s.done)
 				c.Close()
 			}()
+			<-s.startServe
 			s.srv.ServeWithContext(context.Background(), c, c)
 		}()
 		c, err := net.Dial(ln.Addr().Network(), ln.Addr().String())
@@ -194,7 +199,15 @@ func (s *stepper) Begin(b replay.Behaviour, rng *rand.Rand) error {
 			}
 			s.pipeErr <- nil
 		}()
+		// let the writes land in the socket buffer before the server reads (bounded: if the
+		// buffer is too small the server simply starts while the client is still writing)
+		select {
+		case err := <-s.pipeErr:
+			s.pipeErr <- err
+		case <-time.After(2 * time.Second):
+		}
 	}
+	close(s.startServe)
 	return nil
 }
 
